@@ -35,7 +35,7 @@ func lifeRuns(tier string) []base {
 	mainO := AlphaOpts{RespKinds: []string{"ok", "bad", "noout"}, CtxOps: []string{"pause", "start", "kill"},
 		Updates: []CtxUpdate{updTotalUp, updCap1}, Withdraw: []string{"O1:", "O1:P1", "O2:", "O2:P2"}}
 	gapO := AlphaOpts{RespKinds: []string{"ok"}, CtxOps: []string{"pause", "start", "kill"},
-		Updates: []CtxUpdate{updFreq3Tot2, updTotalInf, updTimeout2, updTimeout3},
+		Updates: []CtxUpdate{updFreq3Tot2, updTotalInf, updTimeout2, updTimeout3, {Name: "total1", Total: 1}}, // total1: down to the number of batches already run
 		BindOps: []Action{actDisable("a", "P2", "O2"), actEnable("a", "P2", "O2", 0)}}
 	ctlO := AlphaOpts{RespKinds: []string{"ok"}, CtxOps: []string{"pause", "start", "kill"},
 		Updates: []CtxUpdate{updTotalUp, updTotalInf, updTimeout2, updTimeout3, updFreq2, updFreq1Tot2}}
@@ -105,6 +105,10 @@ func init() {
 		runs = append(runs, RunSpec{Name: "fees-restart", Sc: restartable(scFees(paramSet("0.1", "0.001"), false, d, b, m-1)), Oracles: o})
 		runs = append(runs, RunSpec{Name: "huge-values", Sc: scHuge(paramSet("0.1", "0.001"), d-1, b, 2), Oracles: o})
 		runs = append(runs, slashAfterRefundRun(o, MonFlags{}), priceFractionsRun(o, MonFlags{}, d, b, 2))
+		// the owning module starts a context again from inside the "paused: insufficient balances" state callback (the
+		// invariant makes no assumption about who changed what, so it can run under any rig)
+		runs = append(runs, RunSpec{Name: "mod-restart-in-callback", Sc: scModRestart(defaultParams(), []Template{tMod1, tModPoor},
+			AlphaOpts{RespKinds: []string{"ok"}, ModOps: []string{"mpause", "mstart"}}, d, b, 2), Oracles: o})
 		return runs
 	}})
 	register(&CheckSpec{Prop: "C02", Runs: func(tier string) []RunSpec {
